@@ -116,4 +116,79 @@ theorem fingerprints_expected : fingerprints = [
   ("table.go:mergeRawItemsBlocks", "daf2cdca706b3b23")
 ] := by rfl
 
+/-! ### byte level (item encoding) -/
+
+theorem nsPrefixKeyToTSID_expected : nsPrefixKeyToTSID = 0 := by rfl
+
+theorem nsPrefixTSIDToKey_expected : nsPrefixTSIDToKey = 1 := by rfl
+
+theorem nsPrefixTagToTSIDs_expected : nsPrefixTagToTSIDs = 2 := by rfl
+
+theorem nsPrefixDeletedTSIDs_expected : nsPrefixDeletedTSIDs = 3 := by rfl
+
+theorem nsPrefixTSIDToField_expected : nsPrefixTSIDToField = 4 := by rfl
+
+theorem nsPrefixFieldToPID_expected : nsPrefixFieldToPID = 5 := by rfl
+
+theorem nsPrefixMstToFieldKey_expected : nsPrefixMstToFieldKey = 6 := by rfl
+
+theorem nsPrefixTagKeysToTagValues_expected : nsPrefixTagKeysToTagValues = 7 := by rfl
+
+theorem escapeChar_expected : escapeChar = 0 := by rfl
+
+theorem tagSeparatorChar_expected : tagSeparatorChar = 1 := by rfl
+
+theorem kvSeparatorChar_expected : kvSeparatorChar = 2 := by rfl
+
+theorem compositeTagKeyPrefix_expected : compositeTagKeyPrefix = 254 := by rfl
+
+theorem specialBytes_expected : specialBytes = [0, 1, 2] := by rfl
+
+theorem escTable_expected : escTable = [
+  (0, [0, 48]),
+  (1, [0, 49]),
+  (2, [0, 50])
+] := by rfl
+
+theorem escDefaultIsIdentity_expected : escDefaultIsIdentity = true := by rfl
+
+theorem src_marshalTagValue_expected : src_marshalTagValue = ["hasSpecialChars := <terms>", "if !hasSpecialChars { dst = append(dst, src...) dst = append(dst, tagSeparatorChar) return dst }", "for _, ch := range src { switch ch <table> }", "dst = append(dst, tagSeparatorChar)", "return dst"] := by rfl
+
+theorem unmarshalSeparator_expected : unmarshalSeparator = 1 := by rfl
+
+theorem unmarshalEscape_expected : unmarshalEscape = 0 := by rfl
+
+theorem unescTable_expected : unescTable = [
+  (48, 0),
+  (49, 1),
+  (50, 2)
+] := by rfl
+
+theorem unescDefaultIsError_expected : unescDefaultIsError = true := by rfl
+
+theorem src_marshalNoTrailing_expected : src_marshalNoTrailing = ["dst = marshalTagValue(dst, src)", "if len(dst) > 0 { dst = dst[:len(dst)-1] }", "return dst"] := by rfl
+
+theorem src_marshalCompositeTagKey_expected : src_marshalCompositeTagKey = ["dst = append(dst, compositeTagKeyPrefix)", "dst = encoding.MarshalVarUint64(dst, uint64(len(name)))", "dst = append(dst, name...)", "dst = append(dst, key...)", "return dst"] := by rfl
+
+theorem src_unmarshalCompositeTagKey_expected : src_unmarshalCompositeTagKey = ["if len(src) < 1 { return nil, nil, fmt.Errorf(\"insufficient data for composite tag key\") }", "src = src[1:]", "l, nSize := encoding.UnmarshalVarUint64(src)", "if nSize <= 0 { return nil, nil, fmt.Errorf(\"unmarshal VarUint64 Fail\") }", "tail := src[nSize:]", "name := tail[:l]", "return tail[l:], name, nil"] := by rfl
+
+theorem src_marshalCompositeNamePrefix_expected : src_marshalCompositeNamePrefix = ["dst = append(dst, compositeTagKeyPrefix)", "dst = encoding.MarshalVarUint64(dst, uint64(len(name)))", "dst = append(dst, name...)", "return dst"] := by rfl
+
+theorem src_marshalTagToTSIDs_expected : src_marshalTagToTSIDs = ["tmpB = marshalCompositeTagKey(tmpB[:0], name, []byte(tag.Key))", "dstB = append(dstB, nsPrefixTagToTSIDs)", "dstB = marshalTagValue(dstB, tmpB)", "dstB = marshalTagValue(dstB, []byte(tag.Value))", "dstB = encoding.MarshalUint64(dstB, tsid)", "return dstB"] := by rfl
+
+theorem src_decode_expected : src_decode = ["tsid := idx.indexBuilder.GenerateUUID()", "ii.B = append(ii.B, nsPrefixKeyToTSID)", "ii.B = append(ii.B, seriesKey...)", "ii.B = append(ii.B, kvSeparatorChar)", "ii.B = encoding.MarshalUint64(ii.B, tsid)", "ii.Next()", "ii.B = append(ii.B, nsPrefixTSIDToKey)", "ii.B = encoding.MarshalUint64(ii.B, tsid)", "ii.B = append(ii.B, seriesKey...)", "ii.Next()", "compositeKey := kbPool.Get()", "if enableTagArray {…} else { for i := range tags { ii.B = idx.marshalTagToTSIDs(compositeKey.B, ii.B, name, tags[i], tsid) ii.Next() } }", "compositeKey.B = marshalCompositeTagKey(compositeKey.B[:0], name, nil)", "ii.B = append(ii.B, nsPrefixTagToTSIDs)", "ii.B = marshalTagValue(ii.B, compositeKey.B)", "ii.B = marshalTagValue(ii.B, nil)", "ii.B = encoding.MarshalUint64(ii.B, tsid)", "ii.Next()", "kbPool.Put(compositeKey)", "return tsid"] := by rfl
+
+theorem src_initPrefix_expected : src_initPrefix = ["tf.prefix = tf.prefix[:0]", "compositeKey := kbPool.Get()", "compositeKey.B = marshalCompositeTagKey(compositeKey.B[:0], name, key)", "tf.prefix = append(tf.prefix, nsPrefixTagToTSIDs)", "tf.prefix = marshalTagValue(tf.prefix, compositeKey.B)", "kbPool.Put(compositeKey)"] := by rfl
+
+theorem byteFingerprints_expected : byteFingerprints = [
+  ("marshal.go:unmarshalTagValue", "4e2515b84edf4d27"),
+  ("marshal.go:ParseItem", "02a8236d54a26f94"),
+  ("search.go:collectTSIDsForSuffix", "a42bb19f0cb6c35f"),
+  ("search.go:seekToNextTagValue", "4c67d01e4b8cd531"),
+  ("parser.go:MeasurementName", "72efd7795a72e264"),
+  ("parser.go:UnmarshalIndexKeys", "0987f00cbf7eceb3"),
+  ("int.go:MarshalVarUint64", "baf374ebc0c24b94"),
+  ("int.go:UnmarshalVarUint64", "1b77313b638d86a2")
+] := by rfl
+
 end OG.C10.Facts
